@@ -3,6 +3,7 @@ C10 at BYTE level for NESTED documents: the text rendering of a nested logical d
 (`textFs`), its validity for both text front ends, and the capstone `C10_bytes_end_to_end_nested`.
 -/
 import JominiModel.Proofs.BinDocTextNestedBridge
+import JominiModel.Proofs.TextEndToEndFull
 set_option linter.unusedSimpArgs false
 namespace Jomini.BinDe
 open Jomini Jomini.TextTape Jomini.TextE2E Jomini.TextDoc
@@ -434,6 +435,104 @@ theorem C10_bytes_end_to_end_nested (c : Cfg) (ty : RootTy) (D : BinTape.Fields)
   obtain ⟨Tt, bom, t1, t2, t3⟩ := C02_paths_end_to_end .w1252 (trTy (rootCore ty)) (textFs c (toBDoc D)) [10]
     blank10 hv (textFs_nobom c (toBDoc D)) hp hrt.1 hrt.2
   rw [hdoc] at t2 t3
+  refine ⟨Tt, bom, t1, hparse, ?_, ?_, e3, ?_, ?_⟩
+  · rw [t2]; exact hbridge
+  · rw [t3]; exact hbridge
+  · rw [← e1]; exact e3
+  · rw [← e2]; exact e3
+
+/-! ### every valid layout -/
+
+theorem gLead_textFs (c : Cfg) (fs : BFields) : gLead (textFs c fs) = 0 := by
+  cases fs <;> simp [textFs, gLead]
+
+mutual
+theorem gNode_textV (c : Cfg) (g : Bytes) (n : BNode) : gNode (textV c g n) = docNode c n := by
+  cases n with
+  | leaf l => simp [textV, gNode, docNode, scalOf]
+  | rgb col => simp [textV, gNode, docNode]
+  | arr vs =>
+    cases vs with
+    | nil => simp [textV, gNode, docNode, docNodes]
+    | cons v rest =>
+      cases v with
+      | leaf l => simp [textV, gNode, docNode, docNodes, scalOf, gNodes_textVs c rest]
+      | rgb col => simp [textV, gNode, docNode, docNodes, gNodes_textVs c rest]
+      | arr ws =>
+        have h1 := gNode_textV c [32] (.arr ws)
+        have h2 := gNodes_textVs c rest
+        show gNode (.arrC g (textV c [32] (.arr ws)) (textVs c rest) [10]) = .arr (docNode c (.arr ws) :: docNodes c rest)
+        rw [← h1, ← h2]; rfl
+      | obj fs =>
+        have h1 := gNode_textV c [32] (.obj fs)
+        have h2 := gNodes_textVs c rest
+        show gNode (.arrC g (textV c [32] (.obj fs)) (textVs c rest) [10]) = .arr (docNode c (.obj fs) :: docNodes c rest)
+        rw [← h1, ← h2]; rfl
+  | obj fs =>
+    cases fs with
+    | nil => simp [textV, gNode, docNode]
+    | cons gh k v rest =>
+      have h1 := gNode_textV c [] v
+      have h2 := gFields_textFs c rest
+      simp only [textV, gNode, docNode, docFieldsN, tOp, mkKey, keyScal, gLead_textFs, h1, h2]
+theorem gFields_textFs (c : Cfg) (fs : BFields) : gFields (textFs c fs) = docFieldsN c fs := by
+  cases fs with
+  | nil => rfl
+  | cons gh k v rest =>
+    have h1 := gNode_textV c [] v
+    have h2 := gFields_textFs c rest
+    simp only [textFs, gFields, docFieldsN, tOp, mkKey, keyScal, gLead_textFs, h1, h2]
+theorem gNodes_textVs (c : Cfg) (vs : BNodes) : gNodes (textVs c vs) = docNodes c vs := by
+  cases vs with
+  | nil => rfl
+  | cons v rest => simp only [textVs, gNodes, docNodes, gNode_textV c [32] v, gNodes_textVs c rest]
+end
+
+/-- the canonical rendering is one layout of the logical document -/
+theorem gDoc_textFs (c : Cfg) (d : BFields) : gDoc (textFs c d) = docFieldsN c d := by
+  unfold gDoc
+  rw [gLead_textFs, gFields_textFs]
+  cases h : docFieldsN c d with
+  | nil => rfl
+  | cons x r => obtain ⟨k, o, v⟩ := x; rfl
+
+/-- (C10 at BYTE level, NESTED documents, EVERY text layout) as `C10_bytes_end_to_end_nested`, for every layout `L` of the
+logical document instead of the canonical one: any `JFields` whose layout-free document is the document's text document
+(`gDoc L = docFieldsN …`: the same keys, operators `=` and values; blanks, line ends and comments between the lexemes are
+free) that is valid in the sense of the text slice (`JValidF L gt`, `XPlainF L`, trailing blanks `gt`, no BOM clash).  The
+canonical rendering `textFs` is such a layout (`gDoc_textFs`, `valid_fs`).  Text side through the text slice's
+`C02_paths_end_to_end_full`. -/
+theorem C10_bytes_end_to_end_any_layout (c : Cfg) (ty : RootTy) (D : BinTape.Fields)
+    (hm : noMixedF D = true) (hw : D.wfDoc = true) (hc : canonF D = true) (hroot : c10Root c ty (toBDoc D) = true)
+    (L : JFields) (gt : Bytes) (hL : gDoc L = docFieldsN c (toBDoc D))
+    (hgt : Blank gt) (hv : JValidF L gt) (hb : hasBom (jrenderF L ++ gt) = false) (hp : XPlainF L) :
+    ∃ Tt bom,
+      TextTape.parse (jrenderF L ++ gt) = .ok Tt bom ∧
+      BinTape.parse false D.encode = .ok (BinTape.tapeOfBin D) ∧
+      SameT (rootCore ty) (TextDe.deTape .w1252 (trTy (rootCore ty)) (toTextDeTape Tt)) (valueOfBin c ty (toBDoc D)) ∧
+      SameT (rootCore ty)
+        (TextDe.deStream .w1252 (trTy (rootCore ty)) ((TextReader.sliceTokens (jrenderF L ++ gt)).toks.map toRTok))
+        (valueOfBin c ty (toBDoc D)) ∧
+      deTape c ty (toBinDeTape (BinTape.tapeOfBin D)) = valueOfBin c ty (toBDoc D) ∧
+      deOndemand c ty (rawLexemes D.encode) = valueOfBin c ty (toBDoc D) ∧
+      deStream c ty (rawLexemes D.encode) = valueOfBin c ty (toBDoc D) := by
+  obtain ⟨_, hfit⟩ := c10Root_bin c ty (toBDoc D) hroot
+  have hparse : BinTape.parse false D.encode = .ok (BinTape.tapeOfBin D) := BinTape.faithful_doc D hw
+  obtain ⟨e1, e2, e3⟩ := C04_paths_end_to_end c ty D hm hw hc hfit false _ hparse
+  have hbridge := valueOfText_bridge_nested c ty (toBDoc D) hroot
+  rw [C10_nested_spec c ty (toBDoc D) hroot] at hbridge
+  have hrt : TextDoc.Ty.isRoot (trTy (rootCore ty)) = true ∧
+      FitsT .w1252 false (trTy (rootCore ty)) (.obj (gDoc L)) := by
+    rw [hL]
+    cases ty with
+    | tok fs => simp [c10Root] at hroot
+    | plain t =>
+      cases t with
+      | struct decl => exact ⟨rfl, .st (fitsT_stF c (toBDoc D) decl hroot)⟩
+      | map vt => exact ⟨rfl, .map (fitsT_mpF c (toBDoc D) vt hroot)⟩
+      | _ => simp [c10Root] at hroot
+  obtain ⟨Tt, bom, t1, t2, t3⟩ := C02_paths_end_to_end_full .w1252 (trTy (rootCore ty)) L gt hgt hv hb hp hrt.1 hrt.2
+  rw [hL] at t2 t3
   refine ⟨Tt, bom, t1, hparse, ?_, ?_, e3, ?_, ?_⟩
   · rw [t2]; exact hbridge
   · rw [t3]; exact hbridge
